@@ -6,6 +6,7 @@ import SevenZ.Lemmas.SpecHeader
 import SevenZ.Lemmas.Compressor
 import SevenZ.Model.WriteSession
 import SevenZ.Spec.Archive
+import SevenZ.Model.AppendSession
 namespace SevenZ
 open Impl Spec
 
@@ -79,6 +80,97 @@ theorem readArchive_assembled (area hdr : Bytes) (ha : area.length < 2 ^ 64) (hh
   simp only [not_true_eq_false, if_false]
   rw [List.take_left' rfl]
   cases readTop hdr <;> rfl
+
+/-- the same with bytes left behind the header (an archive that was appended to) -/
+theorem readArchiveTail_assembled (area hdr junk : Bytes) (ha : area.length < 2 ^ 64) (hh : hdr.length < 2 ^ 64) :
+    readArchiveTail (sigHeaderBytes area.length hdr.length (crc32 hdr) ++ area ++ hdr ++ junk) =
+      (match readTop hdr with
+       | .error e => .error e
+       | .ok top => .ok { top := top, dataArea := area }) := by
+  have hcrc : crc32 hdr < 256 ^ 4 := crc32Update_lt 0 hdr
+  have h64 : (2 : Nat) ^ 64 = 256 ^ 8 := by decide
+  generalize hF1 : leBytes area.length 8 = F1
+  generalize hF2 : leBytes hdr.length 8 = F2
+  generalize hF3 : leBytes (crc32 hdr) 4 = F3
+  have l1 : F1.length = 8 := by rw [← hF1, leBytes_length]
+  have l2 : F2.length = 8 := by rw [← hF2, leBytes_length]
+  have l3 : F3.length = 4 := by rw [← hF3, leBytes_length]
+  have v1 : ofLE F1 = area.length := by rw [← hF1]; exact ofLE_leBytes_lt _ _ (by omega)
+  have v2 : ofLE F2 = hdr.length := by rw [← hF2]; exact ofLE_leBytes_lt _ _ (by omega)
+  have v3 : ofLE F3 = crc32 hdr := by rw [← hF3]; exact ofLE_leBytes_lt _ _ hcrc
+  have hsig : sigHeaderBytes area.length hdr.length (crc32 hdr) =
+      magic7z ++ [0, 4] ++ leBytes (crc32 (F1 ++ F2 ++ F3)) 4 ++ (F1 ++ F2 ++ F3) := by
+    simp [sigHeaderBytes, hF1, hF2, hF3]
+  generalize hA : leBytes (crc32 (F1 ++ F2 ++ F3)) 4 = A at hsig
+  have lA : A.length = 4 := by rw [← hA, leBytes_length]
+  have vA : ofLE A = crc32 (F1 ++ F2 ++ F3) := by
+    rw [← hA]; exact ofLE_leBytes_lt _ _ (crc32Update_lt 0 _)
+  have c8 : ∀ l : Bytes, l.length = 8 → ∃ a b c d e f g h, l = [a, b, c, d, e, f, g, h] := by
+    intro l hl
+    match l, hl with
+    | [a, b, c, d, e, f, g, h], _ => exact ⟨a, b, c, d, e, f, g, h, rfl⟩
+  have c4 : ∀ l : Bytes, l.length = 4 → ∃ a b c d, l = [a, b, c, d] := by
+    intro l hl
+    match l, hl with
+    | [a, b, c, d], _ => exact ⟨a, b, c, d, rfl⟩
+  obtain ⟨a0, a1, a2, a3, rfl⟩ := c4 A lA
+  obtain ⟨b0, b1, b2, b3, b4, b5, b6, b7, rfl⟩ := c8 F1 l1
+  obtain ⟨d0, d1, d2, d3, d4, d5, d6, d7, rfl⟩ := c8 F2 l2
+  obtain ⟨e0, e1, e2, e3, rfl⟩ := c4 F3 l3
+  rw [hsig]
+  unfold readArchiveTail
+  simp only [magic7z, List.cons_append, List.nil_append, List.length_cons, List.length_append, List.append_assoc]
+  have hlen : ¬ (area.length + (hdr.length + junk.length) + 1 + 1 + 1 + 1 + 1 + 1 + 1 + 1 + 1 + 1 + 1 + 1 + 1 + 1 + 1 + 1 + 1 + 1 + 1 + 1 + 1 + 1 + 1 + 1 + 1 + 1 + 1 + 1 + 1 + 1 + 1 + 1 < 32) := by omega
+  simp only [hlen, if_false, List.take_succ_cons, List.take_zero, List.drop_succ_cons, List.drop_zero,
+    Spec.magic, ne_eq, not_true_eq_false]
+  simp only [List.cons_append, List.nil_append] at vA
+  simp only [vA, not_true_eq_false, if_false]
+  rw [v1, v2, v3]
+  have hl2 : ¬ (32 + area.length + hdr.length > area.length + (hdr.length + junk.length) + 1 + 1 + 1 + 1 + 1 + 1 + 1 + 1 + 1 + 1 + 1 + 1 + 1 + 1 + 1 + 1 + 1 + 1 + 1 + 1 + 1 + 1 + 1 + 1 + 1 + 1 + 1 + 1 + 1 + 1 + 1 + 1) := by omega
+  simp only [hl2, if_false]
+  have hd : ∀ (p : Bytes), p.length = 32 → List.drop (32 + area.length) (p ++ (area ++ (hdr ++ junk))) = hdr ++ junk := by
+    intro p hp
+    rw [← List.append_assoc]
+    exact List.drop_left' (by simp [hp])
+  have := hd [0x37, 0x7A, 0xBC, 0xAF, 0x27, 0x1C, 0, 4, a0, a1, a2, a3, b0, b1, b2, b3, b4, b5, b6, b7, d0, d1, d2, d3, d4, d5, d6, d7, e0, e1, e2, e3] rfl
+  simp only [List.cons_append, List.nil_append] at this
+  rw [this, List.take_left' rfl]
+  simp only [not_true_eq_false, if_false]
+  rw [List.take_left' rfl]
+  cases readTop hdr <;> rfl
+
+/-- where the reader model finds the header of such an image -/
+theorem locateHeader_assembled (area hdr junk : Bytes) (ha : area.length < 2 ^ 64) (hh : hdr.length < 2 ^ 64) :
+    locateHeader (sigHeaderBytes area.length hdr.length (crc32 hdr) ++ area ++ hdr ++ junk) = some (area.length, hdr) := by
+  have h64 : (2 : Nat) ^ 64 = 256 ^ 8 := by decide
+  have hs := sig_length area.length hdr.length (crc32 hdr)
+  unfold locateHeader
+  have hlen : ¬ (sigHeaderBytes area.length hdr.length (crc32 hdr) ++ area ++ hdr ++ junk).length < 32 := by
+    simp only [List.length_append, hs]; omega
+  simp only [hlen, if_false]
+  -- the two fields
+  obtain ⟨P, hP, hsig⟩ : ∃ P : Bytes, P.length = 12 ∧ sigHeaderBytes area.length hdr.length (crc32 hdr) =
+      P ++ (leBytes area.length 8 ++ (leBytes hdr.length 8 ++ (leBytes (crc32 hdr) 4))) :=
+    ⟨magic7z ++ [0, 4] ++ leBytes (crc32 (leBytes area.length 8 ++ leBytes hdr.length 8 ++ leBytes (crc32 hdr) 4)) 4,
+      by simp [magic7z, leBytes_length], by simp [sigHeaderBytes]⟩
+  have f1 : ((sigHeaderBytes area.length hdr.length (crc32 hdr) ++ area ++ hdr ++ junk).drop 12).take 8 = leBytes area.length 8 := by
+    rw [hsig]
+    simp only [List.append_assoc]
+    rw [List.drop_left' hP, List.take_left' (leBytes_length _ _)]
+  have f2 : ((sigHeaderBytes area.length hdr.length (crc32 hdr) ++ area ++ hdr ++ junk).drop 20).take 8 = leBytes hdr.length 8 := by
+    rw [hsig]
+    simp only [List.append_assoc]
+    have : (20 : Nat) = 12 + 8 := rfl
+    rw [this, ← List.drop_drop, List.drop_left' hP, List.drop_left' (leBytes_length _ _), List.take_left' (leBytes_length _ _)]
+  rw [f1, f2, ofLE_leBytes_lt _ _ (by omega), ofLE_leBytes_lt _ _ (by omega)]
+  have hle : ¬ (32 + area.length + hdr.length > (sigHeaderBytes area.length hdr.length (crc32 hdr) ++ area ++ hdr ++ junk).length) := by
+    simp only [List.length_append, hs]; omega
+  simp only [List.append_assoc] at hle ⊢
+  have : List.drop (32 + area.length) (sigHeaderBytes area.length hdr.length (crc32 hdr) ++ (area ++ (hdr ++ junk))) = hdr ++ junk := by
+    rw [← List.append_assoc]
+    exact List.drop_left' (by simp [hs])
+  rw [this, List.take_left' rfl]
+  simp only [hle, if_false]
 
 /-! ### finding the unbound stream of a linear chain -/
 
